@@ -2694,16 +2694,20 @@ public:
     interval_t lb_i = to_interval(lb_idx);
     auto lb = lb_i.singleton();
     if (!lb) {
-      CRAB_WARN("array adaptive store range ignored because ", "lower bound",
-                lb_idx, " is not constant");
+      // We don't know which cells are written: the sound thing to do
+      // is to forget the contents of the array.
+      CRAB_WARN("array adaptive store range forgets the array because ",
+                "lower bound", lb_idx, " is not constant");
+      forget_array(a);
       return;
     }
 
     interval_t ub_i = to_interval(ub_idx);
     auto ub = ub_i.singleton();
     if (!ub) {
-      CRAB_WARN("array adaptive store range ignored because ", "upper bound ",
-                ub_idx, " is not constant");
+      CRAB_WARN("array adaptive store range forgets the array because ",
+                "upper bound ", ub_idx, " is not constant");
+      forget_array(a);
       return;
     }
 
@@ -2724,6 +2728,9 @@ public:
            e_sz);
       CRAB_WARN("array adaptive store range will ignore indexes greater than ",
                 e);
+      // The cells that are not going to be written cannot keep their
+      // old values.
+      forget_array(a);
     }
 
     for (number_t i = *lb; i <= e;) {
